@@ -21,7 +21,7 @@ directive @experimental_disableErrorPropagation on QUERY | MUTATION | SUBSCRIPTI
 interface Being { id: ID friends: [User] }
 type User implements Being { id: ID name: String nn: String! friends: [User] nnFriends: [User!] best: User tags: [String] }
 type Robot implements Being { id: ID friends: [User] model: String }
-type Query { me: User other: User users: [User] beings: [Being] }
+type Query { me: User other: User users: [User] beings: [Being] boom: String! }
 """
 
 
@@ -42,14 +42,15 @@ def users(fault=None):
 
     u3 = {"__typename": "User", "id": "3", "name": "N3", "nn": "x3", "friends": [], "nnFriends": [], "best": None, "tags": ["t"]}
     u2 = {"__typename": "User", "id": "2", "name": "N2", "nn": ("x2" if fault != "friend_nn_null" else None), "friends": [u3], "nnFriends": [u3], "best": u3, "tags": ["a", "b"]}
-    u1 = {"__typename": "User", "id": "1", "name": (boom if fault == "name_raise" else "N1"), "nn": (None if fault == "nn_null" else "x1"),
+    u1 = {"__typename": "User", "id": "1", "name": (boom if fault == "name_raise" else "N1"), "nn": (None if fault == "nn_null" else boom if fault == "nn_raise" else "x1"),
           "friends": (None if fault == "friends_null" else [u2, u3, u2]), "nnFriends": [u2, u3], "best": (boom if fault == "best_raise" else u2),
           "tags": ["p", "q", "r"]}
     r1 = {"__typename": "Robot", "id": "r1", "friends": [u2, u3], "model": "m1"}
-    return {"me": u1, "other": u2, "users": [u1, u2, u3], "beings": [u1, r1, u2]}, {"u1": u1, "u2": u2, "u3": u3, "r1": r1}
+    root = {"me": u1, "other": u2, "users": [u1, u2, u3], "beings": [u1, r1, u2], "boom": boom}
+    return root, {"u1": u1, "u2": u2, "u3": u3, "r1": r1, "root": root}
 
 
-FAULTS = [None, "name_raise", "nn_null", "friend_nn_null", "friends_null", "best_raise"]
+FAULTS = [None, "name_raise", "nn_null", "friend_nn_null", "friends_null", "best_raise", "nn_raise"]
 
 
 def gate_sites(world, objs, sites, closes):
@@ -105,7 +106,6 @@ def gate_sites(world, objs, sites, closes):
                         class It:
                             def __init__(self):
                                 self.i = 0
-                                closes.append(("started", key))
 
                             def __aiter__(self):
                                 return self
@@ -113,8 +113,11 @@ def gate_sites(world, objs, sites, closes):
                             async def __anext__(self):
                                 i = self.i
                                 self.i += 1
+                                if i == 0:
+                                    closes.append(("started", key))
                                 if i >= len(orig):
                                     await world.gate(f"{key}#end", None, kind="src")
+                                    closes.append(("finished", key))
                                     raise StopAsyncIteration
                                 return await world.gate(f"{key}#{i}", orig[i], kind="src")
 
@@ -139,7 +142,8 @@ class Obs:
                  "stopped", "stop_label", "late_payloads", "pulls_after_stop")
 
 
-def run(c, schema, doc, sites, fault, early, *, early_bound=True, variables=None, stop=None, abort_reason=None, max_pull_after_stop=12):
+def run(c, schema, doc, sites, fault, early, *, early_bound=True, variables=None, stop=None, abort_reason=None, max_pull_after_stop=12,
+        settle_after=False):
     """stop: None or one of 'aclose' | 'abort' - the explorer may insert it at any choice point (cost 0; exactly one)."""
     from graphql import ExecutionResult
     from graphql.execution import ExecutionHooks, experimental_execute_incrementally
@@ -163,8 +167,12 @@ def run(c, schema, doc, sites, fault, early, *, early_bound=True, variables=None
 
         def on_finished(info):
             ex = info.executor
-            pend = task_names([t for t in w.pending_tasks() if t is not main_task and t is not w_current()])
-            obs.hook.append((len(ex.background_futures), len(ex.pending_incremental_futures), pend))
+            # tasks that are still running and have not even been asked to cancel
+            pend = task_names([t for t in w.pending_tasks() if t is not main_task and t is not w_current() and not t.cancelling()])
+            # the abort-signal watcher is the library's own helper (cancelled right after the race it serves), not work
+            pend = [p for p in pend if p != "AbortSignal.wait"]
+            obs.hook.append((sum(1 for f in ex.background_futures if not f.done()),
+                             sum(1 for f in ex.pending_incremental_futures if not f.done()), pend))
 
         def w_current():
             import asyncio
@@ -270,6 +278,15 @@ def run(c, schema, doc, sites, fault, early, *, early_bound=True, variables=None
         # quiescence: drain without releasing anything else
         try:
             w.drain()
+            if settle_after:
+                # the outside world completes what it had started (the caller has been judged already)
+                for _ in range(40):
+                    og = [g for g in w.open_gates() if g.kind != "pull"]
+                    if not og:
+                        break
+                    obs.trace.append("late:" + og[0].label)
+                    og[0].release()
+                    w.drain()
             gc.collect(1)
             w.drain()
         except Livelock as e:
